@@ -12,6 +12,7 @@
   substituted `Versions.app` (every header `MetaHeader.__init__` can hold).
 -/
 import Tranp.Lemmas.RunnerWitness
+import Tranp.Lemmas.RunnerLoads
 import Tranp.Lemmas.RunnerPaths
 import Tranp.Generated.RunnerHeader
 
@@ -48,6 +49,28 @@ theorem header_rt (loads : Str → Except Err Json) (av pre body : Str) (h : Hea
 example : ∃ (loads : Str → Except Err Json) (h : Header),
     loads (' ' :: h.toJson) = .ok h.toJsonVal ∧ h.Normal ['1'] ∧ falsy h.module = false :=
   ⟨tableLoads wTable, curHeader (wEnv outDep) wV1 true mC, w_loadsSound outDep wV1 (by simp [wVers]) true mC (by simp), curHeader_normal _ _ _ _, rfl⟩
+
+/-- **Round trip without a hypothesis on the decoder.** With `json.loads` := `loadsCodec` (Model/RunnerLoads.lean: leading white
+    space skipped, then the JSON codec parser of Model/JsonCodec.lean, tied to CPython's decoder by the streams of C15 and by
+    the stream `loads` of this property) `try_from_content(pre + to_header_str() + '\n' + body)` is the header itself — for
+    every header over the model's JSON values (no floats), every body and every prefix in which the tag does not start. The
+    runner model's `json.dumps` printer is proved equal to the codec's printer (`dumps_eq`), the codec's parser inverts it. -/
+theorem header_rt_codec (av pre body : Str) (h : Header) (hpre : NoEarly Tag pre) (hn : h.Normal av) :
+    tryFromContent loadsCodec av (pre ++ h.toHeaderStr ++ '\n' :: body) = .ok (some h) :=
+  header_rt loadsCodec av pre body h hpre (loads_dumps _) hn
+
+example : tryFromContent loadsCodec ['1'] (['/', '/', ' '] ++ (curHeader (wEnv outDep) wV1 true mC).toHeaderStr ++ '\n' :: ['x']) =
+    .ok (some (curHeader (wEnv outDep) wV1 true mC)) :=
+  header_rt_codec _ _ _ _ (by decide) (curHeader_normal _ _ _ _)
+
+/-- … and the decoder hypothesis `LoadsSound` of the history theorems (`fixpoint_fresh_partial`, `version_bump`, …) holds for
+    every environment whose `json.loads` is that decoder — all module lists, all versions, all source states. -/
+theorem loads_codec_sound {σ : Type} (E : Env σ) (hE : E.loads = loadsCodec) (mods : List Str) (vs : List Vers) :
+    LoadsSound E mods vs :=
+  loadsSound_codec E hE mods vs
+
+example : ∃ E : Env Bool, E.loads = loadsCodec ∧ LoadsSound E [mB, mC] wVers :=
+  ⟨{ wEnv outDep with loads := loadsCodec }, rfl, loads_codec_sound _ rfl _ _⟩
 
 /-- full statement without the line break after the header (a file that consists of the header line only) -/
 def header_rt_no_newline_statement : Prop :=
